@@ -1,6 +1,7 @@
 """C06 — traversals visit each node once in documented order and obey control signals."""
 from __future__ import annotations
 
+import functools
 import warnings
 
 import build as B
@@ -270,55 +271,70 @@ class Prop:
         t_it, t_vis, n_it, n_vis, reg_ok = obs
         root = tree._root
         ids = H.nid
-        docpos = {id(x): i for i, x in enumerate(nodes)}
+        order_cache = {}
 
-        def kids(x):
-            return list(x._children or [])
-
-        def pre(x):
-            out = []
-            for c in kids(x):
-                out.append(c)
-                out.extend(pre(c))
-            return out
-
-        def post(x):
-            out = []
-            for c in kids(x):
-                out.extend(post(c))
-                out.append(c)
-            return out
+        # The documented orders as sort keys on root paths (child indices read off the _parent/_children
+        # pointers by identity) -- no traversal recursion here.
+        def path(y, start):
+            p = []
+            while y is not start:
+                par = y._parent
+                p.append(next(i for i, c in enumerate(par._children) if c is y))
+                y = par
+            return p[::-1]
 
         def up(y, start):
-            """proper ancestors of y inside the traversal, start included"""
+            """proper ancestors of y inside the traversal, nearest first, start included"""
             out = []
-            p = y._parent
-            while y is not start and p is not None:
-                out.append(p)
-                if p is start:
-                    break
-                p = p._parent
+            while y is not start:
+                y = y._parent
+                out.append(y)
             return out
 
-        def by_level(start, rtl, zig):
-            branch = pre(start)
-            depth = {id(y): len(up(y, start)) - 1 for y in branch}
-            out = []
-            for d in range(0, max(depth.values(), default=-1) + 1):
-                lvl = sorted((y for y in branch if depth[id(y)] == d), key=lambda y: docpos[id(y)])
-                back = rtl != (zig and d % 2 == 1)
-                out.extend(reversed(lvl) if back else lvl)
-            return out
+        def below(start):
+            """(node, path) of every proper descendant of start"""
+            res = []
+            for y in nodes:
+                a = y
+                while a is not None and a is not start:
+                    a = a._parent
+                if a is start and y is not start:
+                    res.append((y, path(y, start)))
+            return res
+
+        def post_cmp(a, b):
+            pa, pb = a[1], b[1]
+            if pa[:len(pb)] == pb:          # b is an ancestor of a: descendants first
+                return -1
+            if pb[:len(pa)] == pa:
+                return 1
+            return -1 if pa < pb else 1
 
         def order(start, mi, add_self):
-            if mi == 0:
-                body = pre(start)
+            ck = (id(start), mi, add_self)
+            if ck not in order_cache:
+                order_cache[ck] = order_(start, mi, add_self)
+            return order_cache[ck]
+
+        def order_(start, mi, add_self):
+            br = below(start)
+            if len({tuple(p) for _, p in br}) != len(br):
+                raise AssertionError("oracle: paths not unique")
+            if mi == 0:                      # ancestors first, then earlier sibling sub-trees
+                body = sorted(br, key=lambda e: e[1])
             elif mi == 1:
-                body = post(start)
-            elif mi in (2, 3, 4, 5):
-                body = by_level(start, rtl=mi in (3, 5), zig=mi in (4, 5))
+                body = sorted(br, key=functools.cmp_to_key(post_cmp))
+            elif mi in (2, 3, 4, 5):         # by depth; inside a level by position, reversed where documented
+                rtl, zig = mi in (3, 5), mi in (4, 5)
+
+                def key(e):
+                    d = len(e[1]) - 1
+                    back = rtl != (zig and d % 2 == 1)
+                    return (d, [-i for i in e[1]] if back else e[1])
+                body = sorted(br, key=key)
             else:
                 return None
+            body = [y for y, _ in body]
             if add_self:
                 body = body + [start] if mi == 1 else [start] + body
             return body
